@@ -12,4 +12,5 @@ cbmc --version >/dev/null
 cargo kani --version >/dev/null
 z3 --version >/dev/null
 cvc5 --version >/dev/null
+valgrind --version >/dev/null 2>&1 || echo "note: valgrind missing - pointer-check counterexamples outside C16/C17 cannot be confirmed natively"
 echo setup ok
